@@ -176,6 +176,15 @@ theorem ne_ty : ∀ (t : Ty), t.nonEmpty = true → ∀ (pre : Bool) (v : Val) (
     rcases v with x | x | x | x | ⟨x, y⟩ | _ | x | ⟨x, y⟩ <;> simp only [enc] at h <;> (try contradiction)
     simp only [Ty.nonEmpty] at hn
     exact ne_alts alts hn x y o b h
+  | .custom code fixed, _, pre, v, o, b, h => by
+    rcases v with x | x | x | x | ⟨x, y⟩ | _ | x | ⟨x, y⟩ <;> simp only [enc] at h <;> (try contradiction)
+    split at h
+    · rename_i hok
+      cases h
+      cases x with
+      | nil => simp [customOk] at hok
+      | cons n r => exact append_ne_nil_right (by simp)
+    · contradiction
 theorem ne_fields : ∀ (fs : Fields), fs.nonEmpty = true → ∀ (vs : List Val) (o : Opts) (b : Bytes),
     encFields fs vs o = .ok b → b ≠ []
   | .nil, hn, _, _, _, _ => by simp [Fields.nonEmpty] at hn
@@ -424,6 +433,30 @@ theorem rt_int (w : Nat) : RT (.int w) := by
     simp [dec, canon, leNat_leBytes_of_lt (leNat_emod_lt w x), toSigned_emod w x hx.1 hx.2]
   · exact absurd h (by simp)
 
+theorem rt_custom (code : Option Code) (fixed : Option Nat) (hwf : codeWf code = true) :
+    RT (.custom code fixed) := by
+  intro pre v o b h _ rest
+  rcases v with bs | bs | bs | bs | ⟨bs, y⟩ | _ | bs | ⟨bs, y⟩ <;> simp only [enc] at h <;> (try contradiction)
+  split at h
+  · rename_i hok
+    cases h
+    cases bs with
+    | nil => simp [customOk] at hok
+    | cons n r =>
+      have hlen : r.length = n.toNat := by
+        simp only [customOk, Bool.and_eq_true, beq_iff_eq] at hok; exact hok.1
+      have hr := readCode_codeBytes hwf ((n :: r) ++ rest)
+      have hnl : ¬ (r ++ rest).length < n.toNat := by simp only [List.length_append]; omega
+      have htake : (r ++ rest).take n.toNat = r := by rw [← hlen]; exact List.take_left
+      have hgoal : dec (.custom code fixed) (codeBytes code ++ ((n :: r) ++ rest)) o
+          = .ok (.x (n :: r), (codeBytes code).length + (1 + n.toNat)) := by
+        simp only [dec, hr, Res.ok_bind, List.drop_left]
+        simp only [List.cons_append, hnl, if_false, htake, hok, if_true]
+      rw [List.append_assoc, hgoal]
+      simp only [canon, List.length_append, List.length_cons, hlen]
+      congr 2; omega
+  · contradiction
+
 /-! ## the sequence combinator -/
 
 theorem decLoop_pairs (item : Bytes → Res (Val × Nat)) (ps : List (Bytes × Val))
@@ -669,6 +702,7 @@ theorem key_ty : ∀ (t : Ty), t.isKey = true → ∀ (pre : Bool) (v : Val) (o 
   | .int _, _, _, v, _, _, _ => by cases v <;> simp [canon]
   | .str _ _ _, _, _, v, _, _, _ => by cases v <;> simp [canon]
   | .byteArr _ _ _ _, _, _, v, _, _, _ => by cases v <;> simp [canon]
+  | .custom _ _, _, _, v, _, _, _ => by cases v <;> simp [canon]
   | .array n lp r e, hk, pre, v, o, b, h => by
     rcases v with x | x | x | x | ⟨x, y⟩ | _ | x | ⟨x, y⟩ <;> (try simp [canon])
     simp only [enc] at h
@@ -922,6 +956,9 @@ theorem rt_ty : ∀ (t : Ty), t.wf = true → RT t
     exact rt_byteArr n code mn mx hwf
   | .u256, _ => rt_u256
   | .time, _ => rt_time
+  | .custom code fixed, hwf => by
+    simp only [Ty.wf] at hwf
+    exact rt_custom code fixed hwf
   | .slice lp r e, hwf => by
     intro pre v o b h hlen rest
     simp only [Ty.wf] at hwf
